@@ -535,6 +535,8 @@ ENTRY = {"cp_mode_dot_form": "tensorly.cp_tensor.cp_mode_dot", "cp_flip_sign_for
 PRED.update(R5.PRED); ENTRY.update(R5.ENTRY)
 from harness.props import C04_r7 as R7
 PRED.update(R7.PRED); ENTRY.update(R7.ENTRY)
+from harness.props import C04_r8 as R8
+PRED.update(R8.PRED); ENTRY.update(R8.ENTRY)
 
 
 # ----------------------------------------------------------------------------- generators
@@ -984,20 +986,50 @@ def source_tie(chk):
         return "skipped", f"coqc rc {r.returncode} (killed / timeout)"
     try:
         tt = importlib.import_module("tensorly.tt_tensor"); pre = importlib.import_module("tensorly.preprocessing")
+        tk = importlib.import_module("tensorly.tucker_tensor")
         res = {}
         what = {"pad_src_ok": ("PadSrc.v", "pad_tt_rank", "the padding amounts of pad_tt_rank in the tensorly source no longer equal lpad / rpad of the model"),
                 "rank_limit_src_ok": ("RankSrc.v", "svd_compress_tensor_slices", "the rank limit of svd_compress_tensor_slices in the tensorly source is no longer min(n_cols, max_rank) / n_cols as in the model"),
-                "decompress_src_ok": ("DecompSrc.v", "svd_decompress_parafac2_tensor", "the loop of svd_decompress_parafac2_tensor in the tensorly source no longer stores L_i P_i where a loading is given and P_i otherwise, as decompress_projs of the model does")}
-        for (lemma, (fname, fn_name, msg)), text in zip(what.items(), generate_source_lemmas(tt, pre)):
+                "decompress_src_ok": ("DecompSrc.v", "svd_decompress_parafac2_tensor", "the loop of svd_decompress_parafac2_tensor in the tensorly source no longer stores L_i P_i where a loading is given and P_i otherwise, as decompress_projs of the model does"),
+                "tk_methods_src_ok": ("TkSrc.v", "the TuckerTensor methods (__init__, __getitem__, __setitem__, __iter__, mode_dot, normalize, tucker_copy)",
+                                      "a method body of the TuckerTensor class in the tensorly source is no longer the model's function on object cells "
+                                      "(tucker_new_h / tucker_getitem_h / tucker_setitem_h / tucker_iter_h / tucker_mode_dot_method_h / tucker_normalize_method_h / tucker_copy_h)"),
+                "pf_methods_src_ok": ("PfSrc.v", "the Parafac2Tensor container methods (__init__, __getitem__, __iter__; no __setitem__)",
+                                      "a method body of the Parafac2Tensor class in the tensorly source is no longer the model's function on object cells (pf2_new_h / pf2_getitem_h), "
+                                      "or the iteration order is no longer weights, factors, projections")}
+        texts = list(generate_source_lemmas(tt, pre))
+        try:                                     # round 8: a __setitem__ that refreshes / validates is outside the model (noted by C04_r7, not compared): its body is then not tied
+            plain = R7.tucker_setitem_refreshes_from_source() is False
+        except Exception:  # noqa   (reported as a broken tie by run_round7)
+            plain = False
+        try:
+            texts.append(R8.gen_tucker_methods(tk, setitem_plain=plain))
+        except R8.Untranslatable8 as e:
+            texts.append(Untranslatable(str(e)))
+        try:
+            texts.append(R8.gen_pf2_methods(importlib.import_module("tensorly.parafac2_tensor")))
+        except R8.Untranslatable8 as e:
+            texts.append(Untranslatable(str(e)))
+        jobs = []
+        for (lemma, (fname, fn_name, msg)), text in zip(what.items(), texts):
             if isinstance(text, Untranslatable):
                 res[lemma] = "broken (untranslatable source)"
                 chk.broken.append({"what": f"source tie {lemma} broken: the ast -> Gallina translator does not cover the current source of {fn_name}",
                                    "detail": str(text)})
                 continue
             chk.checker_cmds.append(f"coqc on generated build/gen/C04_*/{fname}: {lemma} (tensorly source -> Gallina)")
+            jobs.append((lemma, fname, msg, text))
+
+        def one(job):
+            lemma, fname, msg, text = job
             st, detail = coqc(fname, text)
             if st == "skipped":                      # loaded machine: one more attempt before giving up (never a verdict)
                 st, detail = coqc(fname, text)
+            return st, detail
+        from concurrent.futures import ThreadPoolExecutor
+        with ThreadPoolExecutor(max_workers=max(1, min(4, C.NPROC))) as ex:       # independent files: checked side by side (serial part of the run)
+            outcomes = list(ex.map(one, jobs))
+        for (lemma, fname, msg, text), (st, detail) in zip(jobs, outcomes):
             res[lemma] = st
             if st == "failed":
                 chk.broken.append({"what": f"source-derived lemma {lemma} failed: {msg}",
@@ -1091,7 +1123,11 @@ _common_print_assumptions = C.print_assumptions
 # ----------------------------------------------------------------------------- the run
 def run(chk):
     rng = random.Random(chk.seed)
-    C.print_assumptions = union_print_assumptions
+    # the union question (one Print Assumptions for all theorems) only where an over-approximation is good enough: the thorough tier and
+    # VERIF_PA_EXACT=1 ask per theorem through common.print_assumptions (exact lists)
+    import os as _os
+    if chk.tier == "quick" and not _os.environ.get("VERIF_PA_EXACT"):
+        C.print_assumptions = union_print_assumptions
     try:
         chk.build_proofs()
     finally:
@@ -1101,8 +1137,8 @@ def run(chk):
     import tensorly as tl
     from tensorly.cp_tensor import CPTensor, cp_normalize, cp_flip_sign, cp_permute_factors, cp_mode_dot, cp_to_tensor
     quick = chk.tier == "quick"
-    mult = 1 if quick else 6               # round 8: thorough thinned from 8 (782 CPU-s, 24 min wall at load 95) to fit <= 10 CPU-min
-    n_cp = 110 if quick else 800           # quick: sample sizes trimmed in round 6 (CPU budget); thorough: 1200 until round 8
+    mult = 1 if quick else 5               # round 8: thorough thinned from 8 (782 CPU-s, 24 min wall at load 95; 6 / 800 still gave 612 CPU-s) to fit <= 10 CPU-min
+    n_cp = 110 if quick else 700           # quick: sample sizes trimmed in round 6 (CPU budget); thorough: 1200 until round 8
     cases, meta = [], []
 
     def add_case(body, descr):
@@ -1322,6 +1358,8 @@ def run(chk):
     R5.run_round5(chk, rng, judge, mult, emit)
     # --- (6) round 7: complex / float32 cores, mixed-height compress -> fit -> decompress, every None pattern of the loading list
     R7.run_round7(chk, rng, judge, mult, emit)
+    # --- (7) round 8: item assignment of TuckerTensor objects for every index, lossy compression
+    R8.run_round8(chk, rng, judge, mult, emit, chk.cov.get("tuckertensor_setitem", "").startswith("plain"))
 
     failing, n_eval, broken = run_shards(chk, cases)
     chk.checker_cmds.append("coqc (vm_compute) on generated build/cases/C04/*.v: Corr.C04.failing")
